@@ -393,7 +393,7 @@ Definition exec (s : st) (x : stmt) : result st :=
       let idx := length (m_insts (get_model (s_cur s) ms1)) in
       let ms2 := add_child (s_cur s) ref KNames ms1 in
       let info := dict_of (zip (map p_name (m_ports (get_model ref ms2))) nets) in
-      finish_inst s ref idx (if contains k_unconn lastnet then None else Some lastnet) info ms2
+      finish_inst s ref idx (if str_eqb lastnet k_unconn then None else Some lastnet) info ms2
     end
   | SCover a b => upd_cur_inst s (fun i => set_icovers i (i_covers i ++ [(a, b)]))
   | SLatch toks =>
